@@ -481,11 +481,11 @@ void epub_write_wrapper(const char * filepath, DString * body, mmd_engine * e, c
 
 	DString * result = epub_create(body, e, directory);
 
-	if (!(output_stream = fopen(filepath, "w"))) {
+	if (!(output_stream = fopen(filepath, "wb"))) {
 		// Failed to open file
 		perror(filepath);
 	} else {
-		fwrite(&(result->str), result->currentStringLength, 1, output_stream);
+		fwrite(result->str, result->currentStringLength, 1, output_stream);
 		fclose(output_stream);
 	}
 
